@@ -40,6 +40,8 @@ def dec(e):
         return P.Variable(e)
     if isinstance(e, (bool, int, float)) or e is None:
         return e
+    if isinstance(e, dict):
+        return e["str"]                 # a Python string left in an expression slot (statements built by hand)
     op = e[0]
     if op == "+":
         return P.Sum((dec(e[1]), dec(e[2])))
@@ -92,7 +94,7 @@ def svars(e):
     """independent syntactic traversal of the JSON tree: variable names (call targets excluded)"""
     if isinstance(e, str):
         return {e}
-    if isinstance(e, (bool, int, float)) or e is None:
+    if isinstance(e, (bool, int, float)) or e is None or isinstance(e, dict):
         return set()
     op = e[0]
     if op == "call":
@@ -445,6 +447,14 @@ def exhaustive_statements():
         yield {"t": "Assign", "lhs": "r", "sub": None, "rhs": r, "loops": [], "cond": c}
         yield {"t": "Yield", "expr": r, "time": "<t>", "cond": c}
         yield {"t": "Call", "assignees": ["x"], "f": "<func>f", "args": [r], "kw": {}, "cond": c}
+    # a Python string left in an expression slot (a statement built by hand, not through the builder, which parses strings): the
+    # declared sets treat it as opaque, so the interpreter must not look anything up because of it
+    for c in CONDS[:3]:
+        yield {"t": "Assign", "lhs": "a", "sub": "i", "rhs": ["*", "i", "x"], "loops": [["i", 0, {"str": "n"}]], "cond": c}
+        yield {"t": "Assign", "lhs": "r", "sub": None, "rhs": {"str": "x + <state>y"}, "loops": [], "cond": c}
+        yield {"t": "Call", "assignees": ["x"], "f": "<func>f", "args": [{"str": "j + <p>k"}], "kw": {}, "cond": c}
+        yield {"t": "Call", "assignees": ["x"], "f": "<func>f", "args": [], "kw": {"x": {"str": "n"}}, "cond": c}
+        yield {"t": "Yield", "expr": {"str": "<state>y"}, "time": "<t>", "cond": c}
     # attribute lookups (a.size, <state>y.real, ...) in every position that has its own traversal
     lk = [[".", "a", "size"], [".", "<state>y", "real"], ["+", [".", "x", "real"], [".", "<state>v", "size"]]]
     for e_, c in itertools.product(lk, CONDS):
